@@ -20,7 +20,8 @@ package c07
 //      values - the dimension's values are the ones the layer table uses; thorough: also every chain v1 -> v2 -> v3
 //      with v1 != v2 != v3 (this contains B -> A -> B and A -> A' -> B);
 //   y  (thorough) cross-dimension chains A -> A' -> B on the forward-auth carrier: every ordered pair of dimensions;
-//   t  (thorough) every single-option pair that ends in a route kind of the layer table: for every B of the table,
+//   t  (thorough) every single-option pair that ends in a route kind of the layer table: for every B of the table (but
+//      the five whose auth service refuses every request),
 //      every dimension that applies to B and every other value v of it: boot B[d:=v], reload to B (any two table kinds
 //      that differ in one option are such a pair, because the dimension's values contain the table's);
 //   m  a management mutation: boot A, PUT /applications/c07/endpoints/<id> {"route": ...} through the Admin API (the
@@ -56,9 +57,9 @@ type chgStep struct {
 type chgKind struct {
 	id       string
 	family   string
-	class    string // family + the dimension(s) changed + number of steps: the history's part of the distinct-case key
+	class    string    // family + the dimension(s) changed + number of steps: the history's part of the distinct-case key
 	steps    []chgStep // steps[0]: boot configuration
-	force    []int     // force[k]: index of the step whose configuration is in force after k steps (push reading, see signChain)
+	force    []int     // force[k]: index of the step whose configuration is in force after k steps (push reading, see resolve)
 	refused  []bool    // refused[k]: step k is a reload the push flow must see rejected (deliver signing differs from the running one)
 	thorough bool
 }
@@ -299,7 +300,7 @@ func buildChgKinds() []*chgKind {
 	}
 
 	// ---- y: cross-dimension chains A -> A' -> B on the forward-auth carrier (every ordered pair of dimensions that have
-	// an alternative value there; outbound signing is not mixed with other options: see signChain)
+	// an alternative value there; outbound signing is not mixed with other options: see resolve)
 	for i := range dims {
 		for j := range dims {
 			d1, d2 := &dims[i], &dims[j]
@@ -316,6 +317,9 @@ func buildChgKinds() []*chgKind {
 	// ---- t: every single-option pair that ends in a route kind of the layer table
 	for _, b := range layerTable() {
 		b := b
+		if b.Fwd != nil && !b.Fwd.allows() {
+			continue // an auth service that refuses everything: nothing is stored under B, whatever was in force before
+		}
 		for di := range dims {
 			d := &dims[di]
 			if !d.applies(&b) {
@@ -346,7 +350,7 @@ func buildChgKinds() []*chgKind {
 // resolve computes which step is in force after every step. Everything the dimensions change is documented as
 // live-reloadable, except deliver signing: a reload whose deliver block differs from the running one is rejected (push
 // flows; the pull routes of a kind have no deliver block, there the file does not change at all). To keep one reading
-// per kind, a history that changes signing changes nothing else (signChain).
+// per kind, a history that changes signing changes nothing else (checked here).
 func (k *chgKind) resolve() {
 	k.force = make([]int, len(k.steps))
 	k.refused = make([]bool, len(k.steps))
@@ -491,7 +495,9 @@ func (k *chgKind) cases(thorough bool) []mcase {
 // whole file - and a failing case is replayed alone in a fresh application first, with its batch otherwise.
 const chgGroup = 4
 
-func (k *chgKind) grouped() bool { return k.family == "y" || k.family == "t" || (k.family == "x" && len(k.steps) > 2) }
+func (k *chgKind) grouped() bool {
+	return k.family == "y" || k.family == "t" || (k.family == "x" && len(k.steps) > 2)
+}
 
 // changeCases: the histories of the tier as case batches (never split: a route's cases stay below the pull batch size).
 func changeCases(thorough bool) [][]mcase {
